@@ -108,6 +108,18 @@ def named_out(a, x):
     return dict(zip(a.function_range.coord_names, [float(v) for v in a(np.asarray(x))]))
 
 
+def near_miss_system(rng, s):
+    """A coordinate system differing from `s` in exactly one attribute (system name, coordinate dtype, one coordinate
+    name, order of the names): composing across it must be refused by every kind of map."""
+    from nipy.core.api import CoordinateSystem as CS
+    other_dt = np.float64 if np.dtype(s.coord_dtype).kind == "i" else np.int64
+    variants = [CS(s.coord_names, s.name + "2", s.coord_dtype), CS(s.coord_names, s.name, other_dt),
+                CS(("qq",) + tuple(s.coord_names[1:]), s.name, s.coord_dtype)]
+    if s.ndim > 1:
+        variants.append(CS(tuple(s.coord_names[1:]) + tuple(s.coord_names[:1]), s.name, s.coord_dtype))
+    return variants[int(rng.integers(0, len(variants)))]
+
+
 def chained_and_near_miss(rng, env):
     """Extra maps for an environment: one whose domain IS the range of an existing map (so that compose applies),
     and 'near-miss' twins whose domain differs from that range in exactly one attribute - the system name, the
@@ -419,9 +431,8 @@ def cmaps(ck):
                     # make the systems match (most of the time) by building `other` on the current systems
                     if kind == "cleft":
                         sysd = cur_c.function_range
-                        if rng.random() < 0.25 and sysd.ndim > 1:
-                            perm = [int(v) for v in np.roll(np.arange(sysd.ndim), 1)]
-                            sysd = CS([sysd.coord_names[i] for i in perm], sysd.name, sysd.coord_dtype)   # same names, other order
+                        if rng.random() < 0.3:
+                            sysd = near_miss_system(rng, sysd)   # differs in name / dtype / one coordinate / order only
                         M = np.zeros((other.ndims[1] + 1, sysd.ndim + 1), dtype=np.int64)
                         M[:-1, :-1] = rng.integers(-2, 3, (other.ndims[1], sysd.ndim)); M[:-1, -1] = rng.integers(-3, 4, other.ndims[1]); M[-1, -1] = 1
                         other = AffineTransform(sysd, other.function_range, M.astype(sysd.coord_dtype))
@@ -429,9 +440,8 @@ def cmaps(ck):
                         cop = "CComposeLeft %s" % caff(other)
                     else:
                         sysr = cur_c.function_domain
-                        if rng.random() < 0.25 and sysr.ndim > 1:
-                            perm = [int(v) for v in np.roll(np.arange(sysr.ndim), 1)]
-                            sysr = CS([sysr.coord_names[i] for i in perm], sysr.name, sysr.coord_dtype)
+                        if rng.random() < 0.3:
+                            sysr = near_miss_system(rng, sysr)
                         M = np.zeros((sysr.ndim + 1, other.ndims[0] + 1), dtype=np.int64)
                         M[:-1, :-1] = rng.integers(-2, 3, (sysr.ndim, other.ndims[0])); M[:-1, -1] = rng.integers(-3, 4, sysr.ndim); M[-1, -1] = 1
                         other = AffineTransform(other.function_domain, sysr, M.astype(sysr.coord_dtype))
